@@ -326,6 +326,30 @@ func extractC07(c *Ctx) error {
 		c.P("Definition method_%s : string := %s.", e.coq[len("packed_"):], CoqStr(e.method))
 		info[e.method] = fs
 	}
+	// the two fee-carrying actions refuse a message without fees before touching m.Fees
+	var nilFees []string
+	for _, recv := range []string{"SubmitLogicCall", "UploadUserSmartContract"} {
+		fd := FindFunc(f, recv, "VerifyAgainstTX")
+		ok := false
+		for _, st := range fd.Body.List {
+			is, isIf := st.(*ast.IfStmt)
+			if isIf && c.Src(is.Cond) == "m.Fees == nil" && len(is.Body.List) > 0 {
+				if rs, isRet := is.Body.List[len(is.Body.List)-1].(*ast.ReturnStmt); isRet && len(rs.Results) == 1 && c.Src(rs.Results[0]) == "ErrEthTxNotVerified" {
+					ok = true
+				}
+				break
+			}
+			if strings.Contains(c.Src(st), "m.Fees.") {
+				break // fees used before any nil check
+			}
+		}
+		if ok {
+			nilFees = append(nilFees, recv)
+		}
+	}
+	c.P("(* VerifyAgainstTX starts with `if m.Fees == nil { ...; return ErrEthTxNotVerified }` in *)")
+	c.P("Definition nil_fees_not_verified : list string := %s.", CoqStrList(nilFees))
+	c.Info("nil_fees_not_verified", nilFees)
 	// UploadSmartContract: bytecode ++ re-packed constructor input, compared as a whole, no loop
 	fd := FindFunc(f, "UploadSmartContract", "VerifyAgainstTX")
 	if fd == nil {
@@ -504,6 +528,42 @@ func extractC07(c *Ctx) error {
 	c.P("Definition processed_store_deleters : list string := %s.", CoqStrList(SortedSet(deleters)))
 	c.Info("processed_store_users", SortedSet(users))
 	c.Info("processed_store_deleters", SortedSet(deleters))
+	// ---- x/consensus/keeper/attest.go: what the end-blocker loop does when attesting one message fails ----
+	cf, err := c.Parse("x/consensus/keeper/attest.go")
+	if err != nil {
+		return err
+	}
+	cl := FindFunc(cf, "Keeper", "CheckAndProcessAttestedMessages")
+	if cl == nil {
+		return fmt.Errorf("CheckAndProcessAttestedMessages not found")
+	}
+	onErr := ""
+	ast.Inspect(cl.Body, func(n ast.Node) bool {
+		is, ok := n.(*ast.IfStmt)
+		if !ok || is.Init == nil || !strings.Contains(c.Src(is.Init), "ProcessMessageForAttestation(") || c.Src(is.Cond) != "err != nil" || len(is.Body.List) == 0 {
+			return true
+		}
+		switch last := is.Body.List[len(is.Body.List)-1].(type) {
+		case *ast.BranchStmt:
+			if last.Tok == token.CONTINUE && last.Label == nil {
+				onErr = "continue"
+			}
+		case *ast.ReturnStmt:
+			if len(last.Results) == 1 && c.Src(last.Results[0]) == "err" {
+				onErr = "return"
+			}
+		}
+		return true
+	})
+	if onErr == "" {
+		return fmt.Errorf("CheckAndProcessAttestedMessages: `if err := opt.ProcessMessageForAttestation(...); err != nil { ...; continue | return err }` not recognised")
+	}
+	if n := len(Calls(cl.Body, "ProcessMessageForAttestation")); n != 1 {
+		return fmt.Errorf("CheckAndProcessAttestedMessages: %d calls of ProcessMessageForAttestation", n)
+	}
+	c.P("(* x/consensus/keeper/attest.go CheckAndProcessAttestedMessages: when attesting one message fails *)")
+	c.P("Definition endblock_on_attest_error : string := %s.", CoqStr(onErr))
+	c.Info("endblock_on_attest_error", onErr)
 	c.Info("packed", info)
 	c.Info("flush_on", flush)
 	c.Info("receipt_gate", gate)
